@@ -776,9 +776,111 @@ def check_near_redundant(ctx):
                                 f"but is_fullrank_matA() is False", rep)
 
 
+def check_product_testers(ctx):
+    """2-qubit measurement-process tomography with PRODUCT tester POVMs (built by `tensor_product`, local outcome counts
+    (2,2) and (2,3)) and boundary candidates with exact zero-probability outcomes: circuit, forward model and Born rule
+    must agree entry by entry.  A handful of schedules only (informational completeness is not needed here)."""
+    from quara.objects.composite_system import CompositeSystem
+    from quara.objects.operators import tensor_product
+    c2 = ts.make_csys("2qubit")
+    e0, e1 = c2._elemental_systems
+    c_a, c_b = CompositeSystem([e0]), CompositeSystem([e1])
+    g = ctx.npgen("product-testers")
+    Ba, Bb = ts.basis_stack(c_a), ts.basis_stack(c_b)
+    pz_a = ts.generate_tester_povms(c_a, ["z"])[0]
+    px_b = ts.generate_tester_povms(c_b, ["x"])[0]
+    m3 = ts.povm_mats(g, 2, 3)
+    p3_b = ts.Povm(c_b, [ts.vec_of(Bb, e) for e in m3])
+    povms = [tensor_product(pz_a, px_b), tensor_product(pz_a, p3_b)]
+    pm_a = [np.array(x) for x in pz_a.matrices()]
+    pmats = [[np.kron(a, b_) for a in pm_a for b_ in [np.array(x) for x in px_b.matrices()]],
+             [np.kron(a, b_) for a in pm_a for b_ in m3]]
+    names = [("z0", "z0"), ("z0", "z1"), ("z1", "x0"), ("x0", "z1"), ("y0", "z0")]
+    states, rhos = [], []
+    for na, nb in names:
+        sa = ts.generate_tester_states(c_a, [na])[0]
+        sb = ts.generate_tester_states(c_b, [nb])[0]
+        states.append(tensor_product(sa, sb))
+        rhos.append(np.kron(sa.to_density_matrix(), sb.to_density_matrix()))
+    for flag in (True, False):
+        for m in (2, 3):
+            spec = ("2qubit", "product", "product(2,2)+(2,3)", "qmpt", flag, m, "all")
+            rep = {"kind": "product", "seed": ctx.seed}
+            try:
+                qt = ts.build("qmpt", states, povms, flag, m)
+                A, b = np.array(qt.calc_matA(), copy=True), np.array(qt.calc_vecB(), copy=True)
+                scheds = qt._experiment.schedules
+                cands = ts.true_objects(g, c2, "qmpt", m, classes=("interior",), flag=flag) + \
+                    ts.edge_objects(c2, "qmpt", m, flag)[:3]
+                for t in cands:
+                    ctx.case(("oracle-product", flag, m, t.label), sample={"check": "product tester POVMs", "cand": t.label,
+                                                                           "local outcome counts": [[2, 2], [2, 3]]})
+                    ref = np.concatenate(ts.born_reference("qmpt", rhos, pmats, scheds, t))
+                    gen = np.concatenate(qt.generate_prob_dists_sequence(t.obj))
+                    pred = A @ t.var(flag) + b
+                    if gen.shape != ref.shape or not np.abs(gen - ref).max() <= 1e-11:
+                        ctx.violate(f"C08/generate_prob_dists_sequence/qmpt/flag={flag}/product-testers",
+                                    f"{spec} true={t.label}: the circuit differs from the Born rule "
+                                    f"(shapes {gen.shape} / {ref.shape})", rep)
+                        break
+                    if not np.abs(pred - ref).max() <= 1e-11:
+                        ctx.violate(f"C08/forward-model/qmpt/flag={flag}/product-testers",
+                                    f"{spec} true={t.label}: matA·var+vecB differs from the Born rule by {np.abs(pred - ref).max():.2e}", rep)
+                        break
+            except Exception as e:  # noqa
+                raised(ctx, "oracle-product", spec, e, rep)
+    ctx.count("oracle product tester POVMs (2 qubits, QMPT)")
+
+
+def check_option_eps(ctx):
+    """objects that carry a non-default `eps_truncate_imaginary_part` (tomography / testers built with that option):
+    the option concerns imaginary parts only and must not change any outcome probability"""
+    from quara.protocol.qtomography.standard.standard_qst import StandardQst
+    from quara.protocol.qtomography.standard.standard_povmt import StandardPovmt
+    c = ts.make_csys("qubit")
+    B = ts.basis_stack(c)
+    sz = np.array([[1, 0], [0, -1]], dtype=complex)
+    rho = (np.eye(2) + (1 - 2e-4) * sz) / 2          # probability 1e-4 for the second outcome of the z measurement
+    for flag in (True, False):
+        rep = {"kind": "option-eps", "seed": ctx.seed}
+        spec = ("qubit", "typical", "typical", "qst/povmt", flag, 2, "eps_truncate_imaginary_part=1e-3")
+        try:
+            povms = ts.generate_tester_povms(c, ["x", "y", "z"])
+            qt = StandardQst(povms, on_para_eq_constraint=flag, eps_truncate_imaginary_part=1e-3)
+            st = ts.State(c, ts.vec_of(B, rho), on_para_eq_constraint=flag)
+            var = st.to_var() if flag else st.to_stacked_vector()
+            obj = qt.convert_var_to_qoperation(var)
+            pred = qt.calc_matA() @ var + qt.calc_vecB()
+            circ = np.concatenate([np.array(compose_qoperations(p, obj).ps) for p in povms])
+            ctx.case(("oracle-option-eps", "qst", flag), sample={"check": "eps_truncate_imaginary_part on the candidate", "p_min": 1e-4})
+            if not np.abs(pred - circ).max() <= 1e-11:
+                ctx.violate(f"C08/forward-model/qst/flag={flag}/option-eps",
+                            f"{spec}: candidate built by a tomography with eps_truncate_imaginary_part=1e-3: matA·var+vecB "
+                            f"{np.round(pred[-2:], 6)} vs circuit {np.round(circ[-2:], 6)}", rep)
+            tst = [ts.State(c, np.array(s_.vec), eps_truncate_imaginary_part=1e-3)
+                   for s_ in ts.generate_tester_states(c, ["x0", "y0", "z0", "z1"])] + \
+                  [ts.State(c, ts.vec_of(B, rho), eps_truncate_imaginary_part=1e-3)]
+            qp = StandardPovmt(tst, 2, on_para_eq_constraint=flag)
+            pz = ts.generate_tester_povms(c, ["z"])[0]
+            pv = ts.Povm(c, [np.array(v) for v in pz.vecs], on_para_eq_constraint=flag)
+            var = pv.to_var() if flag else pv.to_stacked_vector()
+            pred = qp.calc_matA() @ var + qp.calc_vecB()
+            circ = np.concatenate([np.array(compose_qoperations(pv, s_).ps) for s_ in tst])
+            ctx.case(("oracle-option-eps", "povmt", flag), sample={"check": "eps_truncate_imaginary_part on the tester states"})
+            if not np.abs(pred - circ).max() <= 1e-11:
+                ctx.violate(f"C08/forward-model/povmt/flag={flag}/option-eps",
+                            f"{spec}: tester states with eps_truncate_imaginary_part=1e-3: matA·var+vecB {np.round(pred[-2:], 6)} "
+                            f"vs circuit {np.round(circ[-2:], 6)}", rep)
+        except Exception as e:  # noqa
+            raised(ctx, "oracle-option-eps", spec, e, rep)
+    ctx.count("oracle objects with a non-default eps_truncate_imaginary_part")
+
+
 def oracle(ctx, volume=1):
     ctx.partial = PARTIAL
     check_near_redundant(ctx)
+    check_product_testers(ctx)
+    check_option_eps(ctx)
     if not ctx.quick and volume == 1:
         # thorough tier: the quick configurations again with two more generator seeds (other random testers)
         for extra in (1, 2):
@@ -813,6 +915,10 @@ def replay(ctx, data):
         check_setup(sub, tuple(r["spec"]))
     elif r["kind"] == "near":
         check_near_redundant(sub)
+    elif r["kind"] == "product":
+        check_product_testers(sub)
+    elif r["kind"] == "option-eps":
+        check_option_eps(sub)
     else:
         check_incomplete(sub)
     for v in sub.violations:
